@@ -13,6 +13,7 @@ EXPLANATION = (
     " A dispatcher whose structural reading differs from the database (nested tests, a dictionary, a helper predicate) is decided by a decision table over payload classes; the encoder lookup is interpreted for every definition."
     " A dispatcher whose guards cannot be tabulated (match statement, helper taking *fields, struct.unpack, a table of functions ...) is run by the abstract interpreter on one payload per definition, every single-field deviation and every pair of definitions merged, with further payload bits set; the variant it calls is compared with the database's first-match rule."
     ' Fifth round: dispatch differences are reported per (definition the database selects, what the dispatcher selects instead) over all payload classes, the same key whatever the shape of the dispatcher; ENC-STATE classifies attribute uses (see C02).'
+    ' Eighth round: [DISP] no-definition-selected-is-not-decoded -- on the interpreted decode path a dispatcher stand-in that returns None leads to nothing returned, under every option world (each constructor parameter with default False switched on in turn).'
 )
 ASSUMPTIONS = ["CPython ast parser", "Python if/return chains are first-match", "canboat.json is the oracle",
                "sym.py constant folding of >> & == on int literals"]
